@@ -170,6 +170,9 @@ func hItoa(v int64) string {
 // hIdName renders an identity with the module that declares it (names alone can coincide).
 func hIdName(id *Identity) string {
 	if r := RootNode(id); r != nil {
+		if r.BelongsTo != nil {
+			return r.BelongsTo.Name + ":" + id.Name // declared in a submodule: it belongs to the owner module
+		}
 		return r.Name + ":" + id.Name
 	}
 	return id.Name
